@@ -865,7 +865,11 @@ const N_MENU: usize = 36;
 /// One random op from the enabled menu.  `ns`: scalar regs so far (for index draws).
 fn gen_op(rng: &mut Rng, cfg: &GenCfg) -> Op {
     loop {
-        let k = rng.usize(N_MENU);
+        let mut k = rng.usize(N_MENU);
+        // dense-selector programs: mostly rows that carry up to eleven selector values of their own
+        if DENSE_SELECTORS.with(|d| d.get()) && rng.chance(3, 4) {
+            k = *rng.pick(&[3usize, 4, 5, 33, 33, 34, 34, 8]);
+        }
         if cfg.enabled & (1u64 << k) == 0 {
             continue;
         }
